@@ -17,6 +17,10 @@ def KeepsCalls (s : SeqState) (r : Raw) : Prop := Meta s r.st
 
 theorem kc_fail (s : SeqState) (e : Err) : KeepsCalls s (fail s e) := Meta.rfl' s
 theorem kc_done {s s' : SeqState} (h : Meta s s') : KeepsCalls s (done s') := h
+theorem kc_orRollback {s : SeqState} {r : Raw} (h : KeepsCalls s r) : KeepsCalls s (r.orRollback s) := by
+  rcases Raw.orRollback_cases r s with e | ⟨e, he⟩
+  · rw [e]; exact h
+  · rw [he]; exact kc_fail _ _
 
 theorem setChan_calls (s : SeqState) (c : ChanState) : Meta s (s.setChan c) := ⟨rfl, rfl, rfl⟩
 
